@@ -3,6 +3,7 @@ CONSTANTS
   Focus = {"s", "n"}
   NDcf = 2
   MaxArgv = 2
+  Repeat = FALSE
   Emit = TRUE
 INVARIANT DocumentedOrder
 INVARIANT StagesAgree
